@@ -1,22 +1,20 @@
 // Command h runs the implementation side of the correspondence checks:
-// `h <property> [args]` reads cases on stdin and prints one observable per line.
+// `h <command> [args]` reads cases on stdin and prints one observable per line.
+// Sub-commands register themselves in init() (package reg); imports_gen.go, written by
+// tools/genimports.sh, imports every sub-package.
 package main
 
 import (
 	"fmt"
 	"os"
 
-	"verifharness/c17"
+	"verifharness/reg"
 )
 
-var cmds = map[string]func(args []string){
-	"c17": c17.Main,
-}
-
 func main() {
-	if len(os.Args) < 2 || cmds[os.Args[1]] == nil {
-		fmt.Fprintln(os.Stderr, "usage: h <property> [args]")
+	if len(os.Args) < 2 || reg.Cmds[os.Args[1]] == nil {
+		fmt.Fprintln(os.Stderr, "usage: h <command> [args]")
 		os.Exit(2)
 	}
-	cmds[os.Args[1]](os.Args[2:])
+	reg.Cmds[os.Args[1]](os.Args[2:])
 }
